@@ -1192,10 +1192,20 @@ class HeaderSet(cabc.MutableSet[str]):
             self.on_update(self)
 
     def __setitem__(self: te.Self, idx: t.SupportsIndex, value: str) -> None:
+        idx = range(len(self._headers))[idx]
         old = self._headers[idx]
+        key = value.lower()
         self._set.remove(old.lower())
         self._headers[idx] = value
-        self._set.add(value.lower())
+        if key in self._set:
+            # The header is already in the set at another position. A set
+            # holds it once: keep the assigned item, drop the other one.
+            for other, item in enumerate(self._headers):
+                if other != idx and item.lower() == key:
+                    del self._headers[other]
+                    break
+        else:
+            self._set.add(key)
         if self.on_update is not None:
             self.on_update(self)
 
